@@ -8,7 +8,12 @@ PLAN = {
                  f"{RQ}:CSRReader.get_spans", f"{RQ}:CSRReader.__call__",
                  f"{RQ}:FillLowerRangeQuery2D.__init__", f"{RQ}:DirectRangeQuery2D.__init__",
                  f"{SEL}:_IndexingMixin._process_slice", f"{SEL}:_IndexingMixin._unpack_index"],
-        bounded=None,
+        bounded="bounded/C03.py",
         level="proof",
+        level_text="Proof: every obligation generated from the real source of the range-query engine (case split of FillLowerRangeQuery2D, CSRReader row loop with column mask and reflection, span pruning, slice normalisation) is discharged by z3/cvc5 for all windows, all n, all chunk sizes; the exactly-once lemma C03-L1 is a postcondition of the real constructors over the contracts of get_spans and CSRReader.__call__. The bounded tier (all windows for n<=4/5 on real files through the public API) is a labelled stand-in for the API glue not yet under contract and is not counted in obligations/discharged.",
+        level_note="Trusted: assumed numpy contracts (searchsorted, linspace(dtype=int), unique, boolean-mask indexing, concatenate/r_, arange, full) audited against real numpy; scipy coo_matrix/toarray; h5py dataset reads behave like array reads; integer arithmetic mathematical (no int64 overflow below 2^52); z3/cvc5; the executor's Python semantics. api.matrix/Cooler.matrix engine choice and BaseRangeQuery2D.get/to_* conversions are exercised by the bounded tier only.",
+        unverified=["api.matrix / Cooler.matrix (engine choice, output conversion)", "BaseRangeQuery2D.get/to_array/to_sparse_matrix/to_frame", "RangeSelector2D.__getitem__/fetch"],
     ),
 }
+
+NOT_APPLICABLE = {}
